@@ -39,6 +39,13 @@ impl Layout {
 }
 
 // ---- std integer functions missing from vstd (assumed specs) -------------------------------
+// std integer methods a maintainer may reach for (assumed specs, std's documentation)
+pub assume_specification[usize::overflowing_mul](a: usize, b: usize) -> (r: (usize, bool))
+    ensures r.1 == (a * b > usize::MAX), !r.1 ==> r.0 == a * b, r.0 as int == (a * b) % 0x1_0000_0000_0000_0000;
+pub assume_specification[usize::overflowing_add](a: usize, b: usize) -> (r: (usize, bool))
+    ensures r.1 == (a + b > usize::MAX), !r.1 ==> r.0 == a + b, r.0 as int == (a + b) % 0x1_0000_0000_0000_0000;
+pub assume_specification[usize::checked_next_power_of_two](a: usize) -> (r: Option<usize>)
+    ensures match r { Some(p) => is_pow2(p) && p >= a && (a > 1 ==> p / 2 < a), None => a > 0x8000_0000_0000_0000usize };
 pub assume_specification[ usize::next_power_of_two ](x: usize) -> (r: usize)
     requires x <= 0x8000_0000_0000_0000usize,   // debug build panics above (overflow check)
     ensures is_pow2(r), r >= x, x > 0 ==> r < 2 * x, x == 0 ==> r == 1;
